@@ -28,7 +28,8 @@ RULE = ("job = seed -> scenario (version x flavour x options incl. client "
         "alert.  distinct = digest(scenario, victim, deviation); non-trivial "
         "= the deviation was actually emitted and the victim reached a "
         "verdict"
-        " The exhaustive grid also inserts copies (byte snapshots) of the peer's own first messages and a PROTECTED change_cipher_spec; abort-point oracle: after the first out-of-place message the victim may only send a fatal alert (a warning alert followed by carrying on is a violation).")
+        " The exhaustive grid also inserts copies (byte snapshots) of the peer's own first messages and a PROTECTED change_cipher_spec; abort-point oracle: after the first out-of-place message the victim may only send a fatal alert (a warning alert followed by carrying on is a violation)."
+        ' Further inserted / replacing records: warning alert no_certificate, empty application_data; scenarios "certificate requested, client has none" and a 0-RTT offering client negotiated down to TLS 1.2 (early-data window).')
 LEVEL_TEXT = ("Seeded search over single deviations of every message index of "
               "the drawn handshake flavours; the legality table is written "
               "from the RFCs (ambiguous cases yield no verdict), the peer's "
